@@ -554,6 +554,10 @@ def undo_renames(trees):
     all_known_names = {q.rsplit('.', 1)[-1] for rel in digests for q in digests[rel]}
     vanished = [(rel, q) for rel in digests if rel in trees for q in digests[rel] if q not in tables[rel]]
     news = [(rel, q, n) for rel in tables for q, n in tables[rel].items() if q not in digests.get(rel, {}) and rel in digests]
+    # methods of a class that is itself new stay where they are: the class as a whole is dealt with later (local objects, callable objects)
+    kf = known_functions()
+    new_classes = {(rel, c.name) for rel, t in trees.items() for c in _toplevel(t.body) if isinstance(c, ast.ClassDef) and rel in kf and (c.name + '.') not in kf[rel]}
+    news = [(rel, q, n) for (rel, q, n) in news if (rel, q.split('.')[0]) not in new_classes]
     renames = {}       # new simple name -> known simple name
     moves = []
     shapes = _KNOWN_EXTRA.get('shapes', {})
@@ -696,6 +700,8 @@ class _InlineNewHelpers(_InlineMethods):
                 hostq = q.rsplit('.', 1)[0]
                 if hostq in now and hostq in known_digests:
                     self.lost_nested.setdefault(id(now[hostq]), []).append(q.rsplit('.', 1)[1])
+                    self.lost_digests = getattr(self, 'lost_digests', {})
+                    self.lost_digests.setdefault(id(now[hostq]), {})[known_digests[q]] = q.rsplit('.', 1)[1]
                     self.lost_params.setdefault(id(now[hostq]), []).append((known_params or {}).get(q))
                     self.lost_features.setdefault(id(now[hostq]), []).append(set((known_features or {}).get(q) or ()))
         self.hcount = [0]
@@ -738,10 +744,16 @@ class _InlineNewHelpers(_InlineMethods):
                     new_methods.setdefault(cls.name, {})[m.name] = m
         self.local_objects = {}
         self._find_local_objects(classes)
-        if not self.new_funcs and not new_methods and not self.imported_new and not self.module_aliases and not self.local_objects:
+        if not self.new_funcs and not new_methods and not self.imported_new and not self.module_aliases and not self.local_objects and not getattr(self, '_class_infos', None):
             return False
         self.touched = {}
         self.expanded = set()
+        self.host_names = {}
+        self.records = _record_types(self.tree)
+        self.methods = {}
+        restored = self._restore_callable_objects(classes)
+        if not self.new_funcs and not new_methods and not self.imported_new and not self.module_aliases and not self.local_objects and not restored:
+            return False
         self.records = _record_types(self.tree)
         self._restore_closures(classes, new_methods)
         self.host_names = {}
@@ -1031,8 +1043,149 @@ class _InlineNewHelpers(_InlineMethods):
         if isinstance(call.func, ast.Attribute) and isinstance(call.func.value, ast.Name) and call.func.value.id in self.local_objects.get(id(host), {}):
             info = self.local_objects[id(host)][call.func.value.id]
             if call.func.attr in info['methods']:
-                return info['methods'][call.func.attr], True
+                return info['methods'][call.func.attr], not self._is_static(info['methods'][call.func.attr])
         return None
+
+    def _restore_callable_objects(self, classes):
+        """a nested function that was turned into a callable object -- `f = C(a, b)` with `C.__call__`, or `f = C(a, b).method` -- of a NEW small
+        class whose fields only carry what the closure used to capture: it becomes the nested function again (the fields are the captured
+        names; other methods of the class are expanded into it).  Only when `f` is bound once and only ever called, the class is used for
+        nothing else, and the captured names are not rebound in the host."""
+        import copy
+        infos = getattr(self, '_class_infos', {})
+        done = False
+        if not infos:
+            return False
+        uses = {}
+        for x in ast.walk(self.tree):
+            if isinstance(x, ast.Name) and x.id in infos:
+                uses[x.id] = uses.get(x.id, 0) + 1
+        hosts = [fn for fn in self.tree.body if isinstance(fn, ast.FunctionDef)] + [m for c in classes for m in c.body if isinstance(m, ast.FunctionDef) and c.name not in infos]
+        for G in hosts:
+            stores = _stores(G)
+            for holder in ast.walk(G):
+                for fld in ('body', 'orelse', 'finalbody'):
+                    lst = getattr(holder, fld, None)
+                    if not isinstance(lst, list):
+                        continue
+                    for i, st in enumerate(lst):
+                        if not (isinstance(st, ast.Assign) and len(st.targets) == 1 and isinstance(st.targets[0], ast.Name) and stores.get(st.targets[0].id) == 1):
+                            continue
+                        v = st.value
+                        mname = '__call__'
+                        if isinstance(v, ast.Attribute) and isinstance(v.value, ast.Call):
+                            mname, v = v.attr, v.value
+                        if not (isinstance(v, ast.Call) and isinstance(v.func, ast.Name) and v.func.id in infos and uses.get(v.func.id) == 1):
+                            continue
+                        info = infos[v.func.id]
+                        if info['kind'] != 'plain' or mname not in info['methods'] or self._is_static(info['methods'][mname]):
+                            continue
+                        f = st.targets[0].id
+                        # f is only ever called
+                        call_funcs = {id(c.func) for c in ast.walk(G) if isinstance(c, ast.Call)}
+                        if any(isinstance(y, ast.Name) and y.id == f and y is not st.targets[0] and id(y) not in call_funcs for y in ast.walk(G)):
+                            continue
+                        if any(isinstance(a, ast.Starred) for a in v.args) or any(k.arg is None for k in v.keywords):
+                            continue
+                        init = info['init']
+                        pnames = [a.arg for a in init.args.args[1:]]
+                        if len(v.args) > len(pnames):
+                            continue
+                        bound = dict(zip(pnames, v.args))
+                        bad = False
+                        for k in v.keywords:
+                            if k.arg not in pnames or k.arg in bound:
+                                bad = True
+                            bound[k.arg] = k.value
+                        defaults = dict(zip(pnames[len(pnames) - len(init.args.defaults):], init.args.defaults)) if init.args.defaults else {}
+                        for p_ in pnames:
+                            if p_ not in bound:
+                                if p_ in defaults:
+                                    bound[p_] = defaults[p_]
+                                else:
+                                    bad = True
+                        # every field is a captured plain name (or constant) that the host does not rebind
+                        fieldvals = {}
+                        for f_, val in info['init_vals']:
+                            val2 = _Subst(bound).visit(copy.deepcopy(val))
+                            if not _is_pure_path(val2) and not isinstance(val2, ast.Constant):
+                                bad = True
+                            for y in ast.walk(val2):
+                                if isinstance(y, ast.Name) and stores.get(y.id, 0) > 1:
+                                    # bound more than once: fine when every binding comes before the object is made (a closure reads the variable
+                                    # when it is called, the object read it when it was made)
+                                    later = [z for z in ast.walk(G) if isinstance(z, ast.Name) and z.id == y.id and isinstance(z.ctx, (ast.Store, ast.Del)) and getattr(z, 'lineno', 0) >= st.lineno]
+                                    in_loop = any(isinstance(lp, (ast.For, ast.While)) and any(z is st for z in ast.walk(lp)) and
+                                                  any(isinstance(z, ast.Name) and z.id == y.id and isinstance(z.ctx, (ast.Store, ast.Del)) for z in ast.walk(lp)) for lp in ast.walk(G))
+                                    nested = any(isinstance(fn_, (ast.FunctionDef, ast.Lambda)) and fn_ is not G and any(isinstance(z, ast.Name) and z.id == y.id for z in ast.walk(fn_)) for fn_ in ast.walk(G))
+                                    if later or in_loop or nested:
+                                        bad = True
+                            fieldvals[f_] = val2
+                        if bad:
+                            continue
+                        m = copy.deepcopy(info['methods'][mname])
+                        recv = m.args.args[0].arg
+                        others = {k: v_ for k, v_ in info['methods'].items() if k != mname}
+                        # a static method that is, statement for statement, a nested function the host lost comes back as that nested function
+                        siblings = []
+                        for k, v_ in list(others.items()):
+                            lost = getattr(self, 'lost_digests', {}).get(id(G), {})
+                            if self._is_static(v_) and fn_digest(v_) in lost:
+                                nm = lost[fn_digest(v_)]
+                                sib = copy.deepcopy(v_)
+                                sib.name = nm
+                                sib.decorator_list = []
+                                siblings.append((k, nm, sib))
+                                del others[k]
+                        if siblings:
+                            ren = {k: nm for (k, nm, _s) in siblings}
+
+                            class _S(ast.NodeTransformer):
+                                def visit_Attribute(self_, node):
+                                    self_.generic_visit(node)
+                                    if isinstance(node.value, ast.Name) and node.value.id == recv and node.attr in ren:
+                                        return ast.copy_location(ast.Name(id=ren[node.attr], ctx=ast.Load()), node)
+                                    return node
+                            m = _S().visit(m)
+                        # the class's other methods are written out inside it
+                        if others:
+                            saved = self.methods if hasattr(self, 'methods') else {}
+                            self.methods = others
+                            for _ in range(2):
+                                m.body = self._block(m.body, m, others)
+                            self.methods = saved
+                        if any(isinstance(y, ast.Attribute) and isinstance(y.value, ast.Name) and y.value.id == recv and y.attr in others for y in ast.walk(m)):
+                            continue
+                        if any(isinstance(y, ast.Attribute) and isinstance(y.value, ast.Name) and y.value.id == recv and isinstance(y.ctx, (ast.Store, ast.Del)) for y in ast.walk(m)):
+                            continue
+                        inner_names = {y.id for y in ast.walk(m) if isinstance(y, ast.Name)} | {a.arg for a in m.args.args}
+                        if any(isinstance(y, ast.Name) and y.id in inner_names for val2 in fieldvals.values() for y in ast.walk(val2)):
+                            # a captured name that the body also uses as a local of its own would be shadowed
+                            if any(isinstance(y, ast.Name) and y.id in {z.id for z in ast.walk(m) if isinstance(z, ast.Name) and isinstance(z.ctx, ast.Store)} | {a.arg for a in m.args.args}
+                                   for val2 in fieldvals.values() for y in ast.walk(val2)):
+                                continue
+
+                        class _F(ast.NodeTransformer):
+                            def visit_Attribute(self_, node):
+                                self_.generic_visit(node)
+                                if isinstance(node.value, ast.Name) and node.value.id == recv and node.attr in fieldvals:
+                                    return ast.copy_location(copy.deepcopy(fieldvals[node.attr]), node)
+                                return node
+                        m = _F().visit(m)
+                        if any(isinstance(y, ast.Name) and y.id == recv for b in m.body for y in ast.walk(b)):
+                            continue
+                        m.name = f
+                        m.args.args = m.args.args[1:]
+                        m.decorator_list = []
+                        m.body = [b for b in m.body if not (isinstance(b, ast.Expr) and isinstance(b.value, ast.Constant) and isinstance(b.value.value, str))] or [ast.Pass()]
+                        ast.fix_missing_locations(m)
+                        lst[i:i + 1] = [ast.fix_missing_locations(sib) for (_k, _nm, sib) in siblings] + [m]
+                        self.touched[id(G)] = G
+                        # the class is no longer part of the analysed program
+                        self.tree.body = [b for b in self.tree.body if b is not info['cls']]
+                        done = True
+        return done
+
 
     def _find_local_objects(self, classes):
         """a NEW small class (state with a few methods) of which a function makes an object that never leaves it -- bound once by `x = C(...)`,
@@ -1071,14 +1224,21 @@ class _InlineNewHelpers(_InlineMethods):
                 if isinstance(st, ast.FunctionDef) and not st.decorator_list and st.args.args and not st.args.vararg and not st.args.kwarg and not st.args.posonlyargs:
                     methods[st.name] = st
                     continue
+                if isinstance(st, ast.FunctionDef) and self._is_static(st) and len(st.decorator_list) == 1 and not st.args.vararg and not st.args.kwarg and not st.args.posonlyargs and st.name != '__init__':
+                    methods[st.name] = st
+                    continue
                 ok = False
             if not ok:
                 continue
             init = methods.pop('__init__', None)
-            if any(k.startswith('__') and k.endswith('__') for k in methods) or (kind == 'record' and init is not None) or (kind == 'plain' and init is None):
+            if any(k.startswith('__') and k.endswith('__') and k != '__call__' for k in methods) or (kind == 'record' and init is not None) or (kind == 'plain' and init is None):
                 continue
             stored = set()
             for m in list(methods.values()) + ([init] if init else []):
+                if self._is_static(m):
+                    if any(isinstance(x, (ast.Yield, ast.YieldFrom, ast.Await, ast.Global, ast.Nonlocal, ast.Lambda)) or (isinstance(x, ast.FunctionDef) and x is not m) for x in ast.walk(m)):
+                        ok = False
+                    continue
                 recv = m.args.args[0].arg
                 if any(isinstance(x, (ast.Yield, ast.YieldFrom, ast.Await, ast.Global, ast.Nonlocal, ast.Lambda)) or (isinstance(x, ast.FunctionDef) and x is not m) for x in ast.walk(m)):
                     ok = False
@@ -1114,6 +1274,8 @@ class _InlineNewHelpers(_InlineMethods):
                 continue
             # every use of the receiver in a method is a field or a method of the class
             for m in methods.values():
+                if self._is_static(m):
+                    continue
                 recv = m.args.args[0].arg
                 for x in ast.walk(m):
                     if isinstance(x, ast.Attribute) and isinstance(x.value, ast.Name) and x.value.id == recv and x.attr not in fields and x.attr not in methods:
@@ -1121,6 +1283,7 @@ class _InlineNewHelpers(_InlineMethods):
             if not ok:
                 continue
             infos[cls.name] = {'cls': cls, 'kind': kind, 'fields': fields, 'methods': methods, 'init': init, 'init_vals': init_vals}
+        self._class_infos = infos
         if not infos:
             return
         # the class is used for nothing but making such objects
